@@ -456,6 +456,7 @@ func checkC20(p *Program, r *Report) {
 
 	// ---- C20.section / C20.reentry on every function of package bloom that has Filter roots
 	selfLocking := 0
+	argEf := NewEffects(p)
 	for _, fn := range p.Funcs {
 		if fn.Pkg != bloomPkg && !(fn.Parent() != nil && p.InRepo(fn)) {
 			// lock events anywhere in the repo on Filter locks are still collected below
@@ -517,6 +518,87 @@ func checkC20(p *Program, r *Report) {
 		} else if final != stE {
 			r.Add("C20.section", FnName(fn), "helper leaves the lock state unchanged", fn.Pos(), false, "lock status at return: "+final.String())
 		}
+		// C20.args (round 5): an exported, self-locking method does nothing to what its ARGUMENTS point to before it holds
+		// the lock or after it has released it.  Two goroutines may hand the same object (a *bchutil.Tx whose hash is
+		// filled lazily, a *wire.MsgFilterLoad) to one filter; inside the critical section their work on it is
+		// serialised, outside it is a data race (C20-agent5-m2: tx.Hash() resolved before Lock; m3: the message
+		// "clamped" in place before Lock).
+		if exported && acquires {
+			nargs := 0
+			for _, b := range fn.Blocks {
+				for _, in := range b.Instrs {
+					stt := res.before[in]
+					held := stt != nil && (stt.get(gk) == stH || stt.get(gk) == stHS)
+					if held {
+						continue
+					}
+					var hits []string
+					note := func(rs RootSet, what string) {
+						for rt := range rs {
+							if (rt.Kind == rkParam && rt.Idx >= 1) || rt.Kind == rkUnknown {
+								hits = append(hits, what+" → "+rt.String())
+							}
+						}
+					}
+					switch x := in.(type) {
+					case *ssa.Store:
+						note(argEf.Src(x.Addr), "store")
+					case *ssa.MapUpdate:
+						note(argEf.Src(x.Map), "map update")
+					case ssa.CallInstruction:
+						com := x.Common()
+						if _, isDefer := in.(*ssa.Defer); isDefer {
+							continue // runs at RunDefers, where the state is looked at again
+						}
+						if _, prim := la.primitive(com); prim {
+							continue
+						}
+						if bi, ok := com.Value.(*ssa.Builtin); ok {
+							switch bi.Name() {
+							case "copy", "append", "clear", "delete":
+								note(argEf.Src(com.Args[0]), bi.Name())
+							}
+							continue
+						}
+						cal := com.StaticCallee()
+						switch {
+						case cal != nil && p.InRepo(cal) && len(cal.Blocks) > 0:
+							for _, we := range argEf.WriteEffects(cal) {
+								note(argEf.substitute(we.Root, com, in, fn), "via "+FnName(cal)+": "+we.What)
+							}
+						case cal != nil:
+							for _, i := range externalWriters[cal.String()] {
+								if i < len(com.Args) {
+									note(argEf.Src(com.Args[i]), "passed to writer "+cal.Name())
+								}
+							}
+						case com.IsInvoke():
+							for _, impl := range p.implementations(com) {
+								if p.InRepo(impl) && len(impl.Blocks) > 0 {
+									pc := &ssa.CallCommon{Value: impl, Args: append([]ssa.Value{com.Value}, com.Args...)}
+									for _, we := range argEf.WriteEffects(impl) {
+										note(argEf.substitute(we.Root, pc, in, fn), "via "+FnName(impl)+": "+we.What)
+									}
+								}
+							}
+							if invokeMutatesReceiver[com.Method.Name()] {
+								note(argEf.Src(com.Value), "state changed by "+com.Method.Name())
+							}
+						}
+					default:
+						continue
+					}
+					if len(hits) > 0 {
+						sort.Strings(hits)
+						r.Add("C20.args", FnName(fn), "nothing an argument points to is written outside the critical section: "+describeInstr(in), p.InstrPos(in), false, strings.Join(dedup(hits), "; "))
+						nargs++
+					}
+				}
+			}
+			if nargs == 0 {
+				r.Add("C20.args", FnName(fn), "nothing an argument points to is written outside the critical section", fn.Pos(), true, "every store, writer call and in-repo callee with write effects on argument memory runs with the filter lock held")
+			}
+		}
 		// reentry obligations: every call made while holding the lock
 		for _, b := range fn.Blocks {
 			for _, in := range b.Instrs {
@@ -556,6 +638,7 @@ func checkC20(p *Program, r *Report) {
 	r.Floor("C20.guarded", 20)
 	r.Floor("C20.section", 10)
 	r.Floor("C20.reentry", 6)
+	r.Floor("C20.args", 5)
 
 	checkC20gcs(p, r)
 }
@@ -766,4 +849,14 @@ func gcsQueryRule(p *Program, r *Report, ef *Effects, rule string) {
 	if n == 0 {
 		r.Unresolved(rule, "exported methods of gcs.Filter")
 	}
+}
+
+func describeInstr(in ssa.Instruction) string {
+	if v, ok := in.(ssa.Value); ok {
+		return exprString(v)
+	}
+	if c, ok := in.(ssa.CallInstruction); ok {
+		return "call " + calleeShort(c.Common())
+	}
+	return in.String()
 }
